@@ -212,6 +212,28 @@ PROPS["C16"] = dict(
     on_proof_failure=[monitor_search("http-sys")],
 )
 
+PROPS["C17"] = dict(
+    suites=[dict(name="ws-sys", harness="ws-sys", imports=["WsSysCheck"], case_type="wsys_case",
+                 check="ws_sys_code", monitor="ws_sys_mon", count_quick=40, count_thorough=2000, nontrivial_bits=3, shrink=False,
+                 crash_is_violation=True)],
+    rule="ws-sys: per case a fresh RUNNING tracker (aquatic_ws::run inside a child process of the harness, plain TCP) with socket_workers x "
+         "swarm_workers drawn from {1,2,3}^2 and max_scrape_torrents in {1,2,100}; 5 client slots holding WebSocket connections whose "
+         "(socket worker, connection id) the hook probe reports - ids of different workers coincide regularly; 10..25 actions: open, "
+         "announces (3 torrents on 3 different routing bytes, at most 3 announcers each, events none/started/completed/stopped, left "
+         "absent/0/5, two offers with repeated offer ids, answers to offers really forwarded to that connection or bogus ones, sometimes a "
+         "SECOND peer id), scrapes (absent list, empty list, single string, 1..4 hashes over several swarm workers, unknown hashes, more "
+         "than max_scrape_torrents), invalid messages, orderly close handshakes and abrupt TCP shutdowns, re-opened slots; after every "
+         "action everything every connection received is collected (quiet period 35 ms) and compared, per connection and in order, with "
+         "what the model delivers; non-trivial = a case in which a message reached a connection other than the sender AND a connection was closed",
+    modelled="socket/connection.rs handle_announce_request (one peer id per torrent per connection, bookkeeping for clean-up), "
+             "handle_scrape_request + the writer's re-assembly, after_close; swarm/mod.rs dispatch and socket/mod.rs receive_out_messages "
+             "(WsRouting.v) over the storage model (WsSwarm.v)",
+    assumptions=["sequential semantics: every action is processed completely before the next one; the three channel meshes, their "
+                 "interleavings (a ConnectionClosed control message overtaking an announce still in flight) and back-pressure are runtime",
+                 "tungstenite framing, TLS, connection idle clean-up are runtime"],
+    on_proof_failure=[monitor_search("ws-sys")],
+)
+
 PROPS["C05"] = dict(
     suites=[dict(name="validator", harness="validator", imports=["Validator"],
                  case_type="N * list (string * N) * list (N * string * string * bool)",
@@ -451,6 +473,17 @@ LEVELS["C16"] = dict(
     design_ref="DESIGN.md §7 C16", technique="Coq refinement proof (k workers -> reference tracker) + framing lemmas + in-Coq correspondence with running trackers",
     note="Trusted: Coq kernel, models, harness. Partial: socket-worker scheduling, channel delivery, pipelined requests, TCP short writes, "
          "TLS and the reverse-proxy header path are runtime.")
+
+LEVELS["C17"] = dict(
+    text="Partial. Theorems over the routing model (sequential semantics), for every number of swarm workers and every history: every "
+         "message is delivered to the connection named in the swarm worker's meta data and to no other, never to a closed one; a scrape "
+         "naming torrents gets exactly one reply on the sender's connection; a second peer id for a torrent the connection has not stopped "
+         "is answered with the error and the connection is torn down; after a connection closed, no swarm worker holds a peer entry "
+         "created by it. Tied to the code by histories against running trackers for {1,2,3}^2 workers with connection identities read "
+         "through a hook.",
+    design_ref="DESIGN.md §7 C17", technique="Coq invariant proofs over the routing model + in-Coq correspondence with running trackers (hook H8)",
+    note="Trusted: Coq kernel, models, harness, hook H8. Partial: interleavings of the request / control / reply channel meshes are "
+         "runtime and outside the sequential model.")
 
 LEVELS["C05"] = dict(
     text="Theorems for every keyed-hash function, every time, age (0..2^32-1) and address: exact acceptance window; the accepted strings are "
